@@ -136,6 +136,87 @@ class AltTranslationSelection(Contract):
 
 
 # ----------------------------------------------------------------------------
+# per-transcript caller: the graph is built from this transcript with its own completeness tags and the given flags
+# ----------------------------------------------------------------------------
+@register
+class AltTranslationMain(Contract):
+    """the transcript graph is built from the sequence of THIS transcript, with cds_start_nf / mrna_end_nf taken from the transcript's
+    own tags, a known ORF and the run's cleavage parameters; Sec sites are gathered from the annotation; peptides are called with
+    variants required, Sec truncation and W>F exactly as requested, and without external variants"""
+    path, qualname, props = CAT, 'call_alt_translation_main', ('C09',)
+    assumptions = ('havoc: ThreeFrameTVG / PeptideVariantGraph construction, translation, cleavage and traversal (not under contract); the '
+                   'path is cut after call_variant_peptides: the collection of the labels into records is not covered here',)
+
+    def setup(self, I):
+        e = I.e
+        st = types.SimpleNamespace(log=[])
+        st.nf, st.end_nf = e.bool('tag_cds_start_NF'), e.bool('tag_mRNA_end_NF')
+        st.w2f, st.sect = e.bool('w2f_reassignment'), e.bool('sec_truncation')
+        tr = SymObj('GTFSeqFeatureStub9', chrom='chr1')
+        st.tx = SymObj('TxModel9m', transcript=tr)
+        st.params, st.anno = SymObj('CleavageParams9'), SymObj('Anno9')
+        st.chrom = SymObj('Chrom9')
+        st.genome = SymObj('Genome9')
+        st.args = []
+        st.kwargs = dict(tx_id='ENST_T', tx_model=st.tx, genome=st.genome, anno=st.anno, cleavage_params=st.params,
+                         w2f_reassignment=st.w2f, sec_truncation=st.sect)
+        self._cur = st
+        return st
+
+    @property
+    def models(self):
+        c = self
+
+        def inst(reg):
+            st_ = lambda: c._cur
+            reg.protocol_('Genome9', '__getitem__', lambda I, o, key: st_().chrom)
+            reg.method_('TxModel9m', 'is_cds_start_nf', lambda I, o, a, k: st_().nf)
+            reg.method_('TxModel9m', 'is_mrna_end_nf', lambda I, o, a, k: st_().end_nf)
+
+            def get_seq(I, o, a, k):
+                I.e.prove('C09/main/sequence-read-from-the-chromosome-of-the-transcript', len(a) == 1 and a[0] is st_().chrom)
+                st_().seq = SymObj('TxSeq9')
+                return st_().seq
+            reg.method_('TxModel9m', 'get_transcript_sequence', get_seq)
+
+            def tvg(I, a, k):
+                st = st_()
+                I.e.prove('C09/main/graph-built-from-this-transcript-with-its-own-tags',
+                          k.get('seq') is st.seq and k.get('_id') == 'ENST_T' and k.get('cds_start_nf') is st.nf and k.get('mrna_end_nf') is st.end_nf
+                          and k.get('has_known_orf') is True and k.get('cleavage_params') is st.params
+                          and k.get('coordinate_feature_type') == 'transcript' and k.get('coordinate_feature_id') == 'ENST_T' and not a)
+                return SymObj('DGraph9')
+            reg.ext_('svgraph.ThreeFrameTVG', tvg)
+            reg.ctor_('ThreeFrameTVG', tvg)
+
+            def log(name):
+                def h(I, o, a, k):
+                    st_().log.append((name, a, k))
+                    return SymObj('PGraph9') if name == 'translate' else None
+                return h
+            for nm in ('gather_sect_variants', 'init_three_frames', 'translate'):
+                reg.method_('DGraph9', nm, log(nm))
+            reg.method_('PGraph9', 'create_cleavage_graph', log('create_cleavage_graph'))
+
+            def call(I, o, a, k):
+                st = st_()
+                names = [x[0] for x in st.log]
+                I.e.prove('C09/main/sec-sites-gathered-then-frames-translated-and-cleaved-before-calling',
+                          names == ['gather_sect_variants', 'init_three_frames', 'translate', 'create_cleavage_graph'] and st.log[0][1][:1] == [st.anno])
+                I.e.prove('C09/main/peptides-called-with-the-requested-modifications-only',
+                          k.get('check_variants') is True and k.get('truncate_sec') is st.sect and k.get('w2f') is st.w2f
+                          and k.get('check_external_variants') is False and not a)
+                st.called = True
+                from pyvc.core import PathEnd
+                raise PathEnd()
+            reg.method_('PGraph9', 'call_variant_peptides', call)
+        return (inst,)
+
+    def post_return(self, I, st, ret):
+        I.e.prove('C09/main/peptides-come-from-the-graph-traversal', getattr(st, 'called', False))
+
+
+# ----------------------------------------------------------------------------
 # W>F: one reassignment per tryptophan
 # ----------------------------------------------------------------------------
 def str_find(I, seq, ch, start):
